@@ -107,3 +107,21 @@ fn c17_derived_operators_consistent() {
     assert!((sa >= sb) == (c == Some(Ordering::Greater) || c == Some(Ordering::Equal)));
     assert!(!(sa < sb && sb < sa));
 }
+
+// @funcs: Timestamp::{from(u32),into_int,partial_cmp,eq}, Soa::serial
+// @bound: all 2^64 pairs: signature timestamps compare exactly like RFC 1982 serials (undefined at distance 2^31, antisymmetric)
+#[kani::proof]
+fn c17_timestamp_follows_serial_arithmetic() {
+    use domain::rdata::dnssec::Timestamp;
+    let a: u32 = kani::any();
+    let b: u32 = kani::any();
+    let (ta, tb) = (Timestamp::from(a), Timestamp::from(b));
+    assert!(ta.into_int() == a);
+    let got = ta.partial_cmp(&tb);
+    assert!(got == model_cmp(a, b));
+    assert!(tb.partial_cmp(&ta) == got.map(Ordering::reverse));
+    assert!((ta == tb) == (a == b));
+    assert!((ta < tb) == (got == Some(Ordering::Less)));
+    assert!((ta > tb) == (got == Some(Ordering::Greater)));
+    kani::cover!(got.is_none(), "undefined pair reachable");
+}
